@@ -302,11 +302,19 @@ class FnAnalysis:
             t = self.tags(s.value, env)
             for tgt in s.targets:
                 self.assign_target(s, tgt, t, env, s.value)
+                if isinstance(tgt, ast.Name):
+                    env.pop('$elems:' + tgt.id, None)
+                    v = s.value
+                    if isinstance(v, ast.Call) and isinstance(v.func, ast.Name) and v.func.id in ('list', 'tuple') and v.args:
+                        env['$elems:' + tgt.id] = self.elem_tags(v.args[0], env)      # list(<iterable of arrays>): element states of the iterable
+                    elif isinstance(v, (ast.List, ast.Tuple, ast.ListComp)):
+                        env['$elems:' + tgt.id] = self.elem_tags(v, env)      # [] / () give the empty set (vacuously frozen until appended to)
+                    elif isinstance(v, ast.Call) and isinstance(v.func, ast.Name) and v.func.id == 'list' and not v.args:
+                        env['$elems:' + tgt.id] = set()
             return env
         if isinstance(s, ast.AnnAssign):
             if s.value is not None:
-                self.expr_sites(s.value, env)
-                self.assign_target(s, s.target, self.tags(s.value, env), env, s.value)
+                return self.stmt(ast.copy_location(ast.Assign(targets=[s.target], value=s.value), s), env)
             return env
         if isinstance(s, ast.AugAssign):
             self.expr_sites(s.value, env)
@@ -388,6 +396,12 @@ class FnAnalysis:
                 self.bind_loop_target(s.target, el, e, s.iter)
             e2 = self.block(s.body, dict((k, set(v)) for k, v in e.items()))
             out = self.join(e, e2)
+            # `for b in blocks: b.flags.writeable = False` freezes every element of the list
+            if isinstance(s, ast.For) and isinstance(s.iter, ast.Name) and isinstance(s.target, ast.Name) and not s.orelse:
+                frz = [x for x in s.body if isinstance(x, ast.Assign) and len(x.targets) == 1 and ast.unparse(x.targets[0]) == f'{s.target.id}.flags.writeable'
+                       and isinstance(x.value, ast.Constant) and x.value.value is False]
+                if frz and not any(isinstance(x, (ast.Break, ast.Continue, ast.Return)) for x in ast.walk(s)):
+                    out['$elems:' + s.iter.id] = {FROZEN}
             if s.orelse:
                 out = self.block(s.orelse, out)
             return out
@@ -512,8 +526,6 @@ class FnAnalysis:
             k = '$elems:' + e.id
             if k in env:
                 return set(env[k])
-            if env.get(e.id) == {NONARR} and k not in env:
-                return set()           # empty list literal never appended to
             return {UNKNOWN}
         if isinstance(e, (ast.List, ast.Tuple)):
             out = set()
